@@ -15,7 +15,7 @@ SPECS = {
         ],
         "explanation": "Generic convergence theorem (commutation of concurrent operations => all causal delivery orders agree), commutation proved for counters and for array inserts on the RGAList model; delivery discipline proved in C04. The structure models (RGAList incl. move/set/purge, ElementRHT, Counter) are compared with the real structures on random call sequences; the convergence oracle runs on real multi-client histories (2-5 clients, all flavors, push-only syncs).",
         "assumptions": [
-            "PARTIAL: commutation premises for object LWW sets, array move/delete/set, text and tree are not proved; those clauses rest on the structure correspondence and on the convergence oracle",
+            "PARTIAL: object members - proved for concurrent Sets in any number and any delivery order (C01_object_sets_converge); commutation premises for object removes, array move/delete/set, text and tree are not proved; those clauses rest on the structure correspondence and on the convergence oracle",
             "Root/operation glue (operations.Execute, json proxies) is exercised only by the history oracle, not modelled",
         ],
     },
@@ -27,7 +27,10 @@ SPECS = {
             {"name": "erht", "n": {"quick": 300, "thorough": 3000}, "seed_off": 11},
         ],
         "explanation": "Histories on projects with snapshot interval/threshold in {1,2,3,5,10}, late attachers, detach/re-attach and in-flight edits: every attached client (many of them fed by snapshots) must show what a replica that applied every change one by one shows; the server-side rebuild at the current head (cache as-is, warm, and after the caller mutated the returned copy) and the cold rebuild of every historical serverSeq must equal that replica too. The ElementRHT engine checks the structural fact snapshots rely on (no live-but-unlinked member).",
-        "assumptions": ["PARTIAL: no theorem about snapshot encode/decode (to_bytes/from_bytes) yet; decided by the differential oracle"],
+        "assumptions": [
+            "objects: the snapshot round trip is a theorem on the model of converter.fromJSONObject (any listing order of the members, then any later Sets), and the model's decode is compared with the real ObjectToBytes/BytesToObject on every table the erht engine reaches (members listed in an engine-chosen permutation; all members, tombstones, movedAt and links compared)",
+            "PARTIAL: no theorem about the byte codec itself, arrays with moved elements, text, tree or the server rebuild; those are decided by the differential oracle",
+        ],
     },
     "C03": {
         "corr": ["RGA", "ERHT", "Proto"],
@@ -150,7 +153,7 @@ SPECS = {
         ],
     },
     "C16": {
-        "level": "translation_validation",
+        "level": "proof",
         "corr": ["Locks"],
         "engines": [
             {"name": "locks", "race": True, "n": {"quick": 1, "thorough": 1}, "spec_corr": "lock order doc -> pull -> attachment -> push (docs/design/fine-grained-document-locking.md)"},
@@ -216,7 +219,7 @@ SPECS = {
     "C20": {
         "engines": [
             {"name": "c20", "n": {"quick": 1200, "thorough": 12000}},
-            {"name": "hist", "tag": "c20snap", "extra": "prop=C02", "n": {"quick": 200, "thorough": 3000}, "seed_off": 5},
+            {"name": "hist", "tag": "c20snap", "extra": "prop=C20", "n": {"quick": 200, "thorough": 3000}, "seed_off": 5},
         ],
         "explanation": "Theorems about the ChangeStore model (Cache/ChangeStore.v): transparency and no-refetch for every disciplined call sequence; the model is compared with the real mongo.ChangeStore on random op sequences over tables with holes; the transparency oracle is also evaluated directly on the implementation.",
         "assumptions": [
